@@ -364,15 +364,52 @@ def r2(rep, c, tag, side):
                "a result does not return the in-progress buffer", f.loc(b))
 
 
+def local_fn(c, call):
+    """the crate-local function a direct call resolves to (by generic-stripped path), else None."""
+    if call.ind is not None:
+        return None
+    for n in call.names():
+        np = mir.norm(n)
+        hit = [g for g in c.fns.values() if g.npath == np]
+        if len(hit) == 1:
+            return hit[0]
+    return None
+
+
 def r2_read_effects(rep, c, f, tag, nm, D, comp):
     R = "R19.2"
     setl = f.calls("Vec::set_len")
-    lift = f.calls("StreamOps::lift")
-    push = f.calls("Vec::push")
+    # INLINE VIEW: the lift loop may live in the update function itself or in a crate-local helper it calls; a helper
+    # is only accepted when its loop is on every path of the helper, and its sites then count as located at the call.
+    hosts = []
+    if f.calls("StreamOps::lift") or f.calls("Vec::push"):
+        hosts.append((f, None))
+    for x in f.calls():
+        g = local_fn(c, x)
+        if g is not None and g is not f and (g.calls("StreamOps::lift") or g.calls("Vec::push")) \
+                and not g.npath.endswith("::in_progress_update"):
+            hosts.append((g, x))
+            rep.saw(g)
+
+    def site(via, bb):
+        return bb if via is None else via.bb
+
+    def cnt_ok(h, via, op):
+        if via is None:
+            return count_src(f, op, D) is not None
+        o = h.origin(op)
+        if o.get("kind") != "arg" or o.get("proj") or not (1 <= o["n"] <= len(via.args)):
+            return False
+        return count_src(f, via.args[o["n"] - 1], D) is not None
+
+    lift_sites, push_sites, loops = [], [], []
+    for h, via in hosts:
+        lift_sites += [site(via, x.bb) for x in h.calls("StreamOps::lift")]
+        push_sites += [site(via, x.bb) for x in h.calls("Vec::push")]
     rep.floor(R, f"{nm}: Vec::set_len sites {tag}", len(setl), 1)
-    rep.floor(R, f"{nm}: StreamOps::lift sites {tag}", len(lift), 1)
-    rep.floor(R, f"{nm}: Vec::push sites {tag}", len(push), 1)
-    effects = [x.bb for x in setl + lift + push]
+    rep.floor(R, f"{nm}: StreamOps::lift sites {tag}", len(lift_sites), 1)
+    rep.floor(R, f"{nm}: Vec::push sites {tag}", len(push_sites), 1)
+    effects = [x.bb for x in setl] + lift_sites + push_sites
     # capacity assertion
     asserts = []
     for b, _ in f.switches():
@@ -383,25 +420,22 @@ def r2_read_effects(rep, c, f, tag, nm, D, comp):
                     and is_call(rhs["b"], "Vec::len") and diverges(f, f.switch_targets(b)[0]):
                 asserts.append(b)
     rep.floor(R, f"{nm}: assert!(count <= capacity - len) {tag}", len(asserts), 1)
-    for e in setl + lift + push:
-        rep.ob(R, f"{nm}: the capacity assertion dominates {e.callee.split('::')[-1]} {tag}",
-               f.set_dominates(set(asserts), e.bb), "items could be appended past the buffer's capacity", f.loc(e.bb))
+    for what, bs in (("set_len", [x.bb for x in setl]), ("lift", lift_sites), ("push", push_sites)):
+        bad = [b for b in bs if not f.set_dominates(set(asserts), b)]
+        rep.ob(R, f"{nm}: the capacity assertion dominates {what} {tag}", not bad,
+               "items could be appended past the buffer's capacity", f.loc(bad[0]) if bad else f.loc())
     # native / lifted are exclusive
     nsw = bool_switches_on_call(f, "StreamOps::native_abi_matches_canonical_abi")
     rep.floor(R, f"{nm}: native_abi_matches_canonical_abi test {tag}", len(nsw), 1)
+    sl, lf = {x.bb for x in setl}, set(lift_sites + push_sites)
     ok = False
     for b, ft, tt in nsw:
         rt_, rf = f.edge_region(b, tt), f.edge_region(b, ft)
-        if all(x.bb in rt_ for x in setl) and all(x.bb in rf for x in lift + push):
+        if sl <= rt_ and lf <= rf:
             ok = True
-    sl, lf = {x.bb for x in setl}, {x.bb for x in lift + push}
     ok = ok and not any(f.reachable(a) & lf for a in sl) and not any(f.reachable(a) & sl for a in lf)
     rep.ob(R, f"{nm}: set_len (native layout) and lift+push (lowered layout) are exclusive {tag}", ok,
            "a path both extends the length and pushes lifted items: items would appear twice", f.loc())
-    for b, _, rv, _ in comp:
-        rng = [bb for bb, _, r, _ in f.aggregates("Range") if r["var"] == "Range"]
-        rep.ob(R, f"{nm}: Complete is reported only after set_len or the lift loop {tag}",
-               f.set_dominates(sl | set(rng), b), "a path reports items without appending them", f.loc(b))
     rep.ob(R, f"{nm}: set_len runs at most once {tag}", no_second(f, sl), "", f.loc())
     for x in setl:
         o = f.origin(x.args[1])
@@ -410,28 +444,48 @@ def r2_read_effects(rep, c, f, tag, nm, D, comp):
             (is_call(o["b"], "Vec::len") and count_src(f, o["a"], D) is not None))
         rep.ob(R, f"{nm}: set_len(len + decoded count) {tag}", ok, "new length is not old length plus the count",
                f.loc(x.bb))
-    # the lift loop
-    rngs = [(bb, r) for bb, _, r, _ in f.aggregates("Range") if r["var"] == "Range"]
-    okr = [(bb, r) for bb, r in rngs if f.origin(r["ops"][0]).get("v") == 0 and count_src(f, r["ops"][1], D) is not None]
-    rep.floor(R, f"{nm}: loop over 0..count {tag}", len(okr), 1)
-    nexts = [(b, m) for b, m, o in discr_switches(f, ty_sub="Option<usize>") if is_call(o["of"], re.compile(r"Range<A>>::next$"))]
-    for x in lift:
-        inloop = any(variant_target(m, "Some") is not None and x.bb in f.edge_region(b, variant_target(m, "Some"))
-                     for b, m in nexts)
-        rep.ob(R, f"{nm}: lift runs once per step of the 0..count loop {tag}",
-               inloop and f.in_cycle(x.bb) and len(rngs) == len(okr) == 1,
-               "the number of lifted items is not bounded by the decoded count", f.loc(x.bb))
-        rep.ob(R, f"{nm}: every lifted item is pushed before the next lift {tag}",
-               loop_passes(f, x.bb, [p.bb for p in push]) and
-               all(same_site(f.origin(p.args[1]), {"kind": "call", "call": x}) for p in push),
-               "a lifted item is dropped or pushed twice", f.loc(x.bb))
-        adds = [a for a in f.calls(PTR_ADD) if f.in_cycle(a.bb)]
-        src = leaves(f, f.origin(x.args[1]))
-        step_ok = any(is_call(peel(f, f.origin(a.args[1])), "Layout::size") for a in adds)
-        rep.ob(R, f"{nm}: the source pointer moves one element forward between lifts (order) {tag}",
-               bool(adds) and loop_passes(f, x.bb, [a.bb for a in adds]) and step_ok and
-               any(s.get("kind") == "call" and s["call"].bb in {a.bb for a in adds} for s in src),
-               "successive lifts would read the same slot", f.loc(x.bb))
+    # the lift loop(s)
+    nloops = 0
+    loop_sites = set()
+    for h, via in hosts:
+        lift = h.calls("StreamOps::lift")
+        push = h.calls("Vec::push")
+        rngs = [(bb, r) for bb, _, r, _ in h.aggregates("Range") if r["var"] == "Range"]
+        okr = [(bb, r) for bb, r in rngs if h.origin(r["ops"][0]).get("v") == 0 and cnt_ok(h, via, r["ops"][1])]
+        nloops += len(okr)
+        loop_sites |= {site(via, bb) for bb, _ in okr}
+        nexts = [(b, m) for b, m, o in discr_switches(h, ty_sub="Option<usize>")
+                 if is_call(o["of"], re.compile(r"Range<A>>::next$"))]
+        if via is not None:
+            # the helper's loop is unconditional and appends to the update's buffer
+            okh = bool(nexts) and every_return_passes(h, [b for b, _ in nexts]) and no_second(h, [bb for bb, _ in rngs])
+            for p_ in push:
+                vo = h.origin(p_.args[0])
+                okh = okh and vo.get("kind") == "arg" and 1 <= vo["n"] <= len(via.args) and \
+                    f.origin(via.args[vo["n"] - 1]).get("kind") == "arg" and f.origin(via.args[vo["n"] - 1]).get("n") == 2
+            rep.ob(R, f"{nm}: the helper holding the lift loop runs it on every path and pushes into the read's buffer {tag}",
+                   okh and no_second(f, [via.bb]), "", h.loc())
+        for x in lift:
+            inloop = any(variant_target(m, "Some") is not None and x.bb in h.edge_region(b, variant_target(m, "Some"))
+                         for b, m in nexts)
+            rep.ob(R, f"{nm}: lift runs once per step of the 0..count loop {tag}",
+                   inloop and h.in_cycle(x.bb) and len(rngs) == len(okr) == 1,
+                   "the number of lifted items is not bounded by the decoded count", h.loc(x.bb))
+            rep.ob(R, f"{nm}: every lifted item is pushed before the next lift {tag}",
+                   loop_passes(h, x.bb, [p.bb for p in push]) and
+                   all(same_site(h.origin(p.args[1]), {"kind": "call", "call": x}) for p in push),
+                   "a lifted item is dropped or pushed twice", h.loc(x.bb))
+            adds = [a for a in h.calls(PTR_ADD) if h.in_cycle(a.bb)]
+            src = leaves(h, h.origin(x.args[1]))
+            step_ok = any(is_call(peel(h, h.origin(a.args[1])), "Layout::size") for a in adds)
+            rep.ob(R, f"{nm}: the source pointer moves one element forward between lifts (order) {tag}",
+                   bool(adds) and loop_passes(h, x.bb, [a.bb for a in adds]) and step_ok and
+                   any(s.get("kind") == "call" and s["call"].bb in {a.bb for a in adds} for s in src),
+                   "successive lifts would read the same slot", h.loc(x.bb))
+    rep.floor(R, f"{nm}: loop over 0..count {tag}", nloops, 1)
+    for b, _, rv, _ in comp:
+        rep.ob(R, f"{nm}: Complete is reported only after set_len or the lift loop {tag}",
+               f.set_dominates(sl | loop_sites, b), "a path reports items without appending them", f.loc(b))
     return effects
 
 
@@ -591,8 +645,82 @@ def forget_pair(rep, f, tag, nm, src_ok):
     return fr[0]
 
 
+CAST = re.compile(r"::(cast|cast_mut|cast_const)$")
+
+
+def is_self(h, op):
+    """operand is (a reborrow of) the method's `self`, no field selected."""
+    o = h.origin(op)
+    return o.get("kind") == "arg" and o.get("n") == 1 and all(p in ("*", "&") for p in o.get("proj", []))
+
+
+def ret_leaves(g):
+    return leaves(g, g.place_origin({"l": 0}))
+
+
+def via_self_method(c, h, o):
+    """crate-local method called on the same `self` (its return value can be evaluated with self = self)."""
+    if o.get("kind") != "call" or o.get("proj"):
+        return None
+    g = local_fn(c, o["call"])
+    if g is None or g is h or not o["call"].args or not is_self(h, o["call"].args[0]) or len(o["call"].args) != 1:
+        return None
+    return g
+
+
+def make_evaluators(c):
+    def len_ok(h, o, depth=3):
+        """value == self.rust_storage.len() - self.cursor (through conversions and same-self helper methods)."""
+        o = peel(h, o)
+        if o.get("kind") == "bin" and o["op"].startswith("Sub") and is_call(o["a"], "Vec::len") and \
+                self_field(h.origin(o["a"]["call"].args[0]), "rust_storage") and self_field(o["b"], "cursor"):
+            return True
+        g = via_self_method(c, h, o) if depth > 0 else None
+        if g is not None:
+            lv = ret_leaves(g)
+            return bool(lv) and all(len_ok(g, q, depth - 1) for q in lv)
+        return False
+
+    def alloc_ptr_ok(h, o, depth=3, top=True):
+        """value == the pointer of the Cleanup in self.alloc, or null when there is none."""
+        real = [0]
+
+        def one(q):
+            q = peel(h, q, CAST)
+            if is_call(q, re.compile(r"ptr::null(_mut)?$")):
+                return True
+            if is_call(q, "NonNull::as_ptr"):
+                a = h.origin(q["call"].args[0])
+                if a.get("kind") == "arg" and a.get("n") == 1 and ".alloc" in a.get("proj", []) and ".ptr" in a.get("proj", []):
+                    real[0] += 1
+                    return True
+                return False
+            if is_call(q, re.compile(r"Option::<T>::(unwrap_or|unwrap|expect|unwrap_or_else)$")):
+                src, n = q, 0
+                while src.get("kind") == "call" and n < 6 and not src["call"].matches("Option::as_ref"):
+                    src = h.origin(src["call"].args[0]) if src["call"].args else {}
+                    n += 1
+                if is_call(src, "Option::as_ref") and self_field(h.origin(src["call"].args[0]), "alloc"):
+                    real[0] += 1
+                    return True
+                return False
+            g = via_self_method(c, h, q) if depth > 0 else None
+            if g is not None:
+                lv = ret_leaves(g)
+                if lv and all(alloc_ptr_ok(g, x, depth - 1, top=False) for x in lv) and \
+                        any(not is_call(peel(g, x, CAST), re.compile(r"ptr::null(_mut)?$")) for x in lv):
+                    real[0] += 1
+                    return True
+            return False
+        lv = leaves(h, o)
+        okk = bool(lv) and all(one(q) for q in lv)
+        return okk and (real[0] > 0 or not top)
+    return len_ok, alloc_ptr_ok
+
+
 def r4(rep, c, tag):
     R = "R19.4"
+    len_ok, alloc_ptr_ok = make_evaluators(c)
 
     def new():
         f = c.method("AbiBuffer", "new")
@@ -814,30 +942,22 @@ def r4(rep, c, tag):
             if rv is None or "tuple" not in rv:
                 rep.ob(R, f"{nm}: returns a (ptr, len) pair {tag}", False, "", f.loc(b))
                 continue
-            lo = peel(f, f.origin(rv["ops"][1]))
-            okl = lo.get("kind") == "bin" and lo["op"].startswith("Sub") and is_call(lo["a"], "Vec::len") and \
-                self_field(f.origin(lo["a"]["call"].args[0]), "rust_storage") and self_field(lo["b"], "cursor")
-            po = peel(f, f.origin(rv["ops"][0]), re.compile(r"::(cast|cast_mut|cast_const)$"))
+            okl = len_ok(f, f.origin(rv["ops"][1]))
+            po = peel(f, f.origin(rv["ops"][0]), CAST)
             okp = False
             kind = "?"
             if is_call(po, PTR_ADD):
-                base = peel(f, f.origin(po["call"].args[0]), re.compile(r"::(cast|cast_mut|cast_const)$"))
+                base = peel(f, f.origin(po["call"].args[0]), CAST)
                 off = f.origin(po["call"].args[1])
                 if is_call(base, re.compile(r"Vec::<T, A>::as_(mut_)?ptr$")):
                     kind = "native"
                     okp = self_field(f.origin(base["call"].args[0]), "rust_storage") and self_field(off, "cursor") \
                         and "Payload" in po["call"].ga  # element-sized steps: the pointee is still the payload type
-                elif is_call(base, re.compile(r"Option::<T>::(unwrap_or|unwrap|expect|unwrap_or_else)$")):
+                elif alloc_ptr_ok(f, base):
                     kind = "lowered"
                     xs = [off.get("a", {}), off.get("b", {})]
                     okp = off.get("kind") == "bin" and off["op"].startswith("Mul") and \
                         any(self_field(q, "cursor") for q in xs) and any(is_call(q, "Layout::size") for q in xs)
-                    src = base
-                    n = 0
-                    while src.get("kind") == "call" and n < 6 and not src["call"].matches("Option::as_ref"):
-                        src = f.origin(src["call"].args[0]) if src["call"].args else {}
-                        n += 1
-                    okp = okp and is_call(src, "Option::as_ref") and self_field(f.origin(src["call"].args[0]), "alloc")
             rep.ob(R, f"{nm}: {kind} layout: pointer is base + cursor elements {tag}", okp,
                    "a resumed write would send already transferred values again", f.loc(b))
             rep.ob(R, f"{nm}: {kind} layout: len is rust_storage.len() - cursor {tag}", okl, "", f.loc(b))
